@@ -554,6 +554,9 @@ func drawC12Price(t *rapid.T) string {
 		return rapid.SampledFrom([]string{"0.000001", "1000000", "0.00000001", "999999.99999999", "630.92676833", "0.33333333", "3.00000003"}).Draw(t, "extreme")
 	case k <= 9:
 		return gen.DrawPrice(t)
+	case k == 10:
+		// more decimals than the 8 kept per step (rates quoted to 10-12 places, prices below 1e-8)
+		return rapid.SampledFrom([]string{"0.123456789", "0.000012345678", "1.000000001", "0.000000004", "123.4567891234", "0.999999999999"}).Draw(t, "fine")
 	}
 	dec := rapid.SampledFrom([]int{1, 2, 4, 6, 8, 8}).Draw(t, "dec")
 	ip := rapid.SampledFrom([]int64{0, 0, 9, 99, 9999, 999999}).Draw(t, "imax")
@@ -569,6 +572,48 @@ func drawC12Price(t *rapid.T) string {
 func drawC12(t *rapid.T, cli bool) C12Case {
 	n := rapid.IntRange(2, 7).Draw(t, "n")
 	c := C12Case{CLI: cli}
+	if gen.Rare(t, "manyCommodities", 6) {
+		// a price list of realistic size: most commodities quoted against the first one, some through another
+		n = rapid.IntRange(66, 160).Draw(t, "nMany")
+		for i := 0; i < n; i++ {
+			c.Coms = append(c.Coms, fmt.Sprintf("L%03d", i))
+		}
+		c.V = rapid.SampledFrom([]int{0, 0, 0, 1, n - 1}).Draw(t, "vMany")
+		for i := 1; i < n; i++ {
+			parent := 0
+			if rapid.IntRange(0, 3).Draw(t, "viaOther") == 0 {
+				parent = rapid.IntRange(0, i-1).Draw(t, "parentMany")
+			}
+			d := c12Decl{C: i, T: parent, P: drawC12Price(t), Day: rapid.IntRange(0, 5).Draw(t, "day")}
+			if rapid.IntRange(0, 2).Draw(t, "flip") == 0 {
+				d.C, d.T = d.T, d.C
+			}
+			c.Decls = append(c.Decls, d)
+		}
+		if rapid.Bool().Draw(t, "shuffle") {
+			c.Decls = rapid.Permutation(c.Decls).Draw(t, "fileOrder")
+		}
+		if c12ExcludeDirectOverridden {
+			c.Decls = c12DropCyclesThroughV(c)
+		}
+		if !cli {
+			c.Amt = gen.DrawQty(t, 8, true)
+			return c
+		}
+		c.SameDay = rapid.Bool().Draw(t, "sameDay")
+		g := ref.NewC12Graph(n)
+		for _, d := range c.Decls {
+			if !c12IsZero(d.P) {
+				g.Declare(d.C, ref.R(d.P), d.T)
+			}
+		}
+		for _, a := range g.Answers(c.V) {
+			if a.Connected {
+				c.Hold = append(c.Hold, a.C)
+			}
+		}
+		return c
+	}
 	c.Coms = rapid.SliceOfNDistinct(rapid.SampledFrom(c12Names), n, n, rapid.ID[string]).Draw(t, "coms")
 	c.V = rapid.IntRange(0, n-1).Draw(t, "v")
 	// three quarters of the cases start from a forest (commodity i is declared against an earlier one, in either
